@@ -139,6 +139,61 @@ class MergedList(list):
         return sym.ENG.decide(z3.Or(*cs))
 
 
+class StrKeyMap:
+    """a real dict with str keys that may be read with a symbolic string key: membership / lookup become one decision per
+    candidate key of matching length instead of hashing (which would concretise every symbolic character)"""
+
+    def __init__(self, d):
+        self.d = d
+
+    def _cands(self, k):
+        out = []
+        for key in self.d:
+            if isinstance(key, str) and len(key) == len(k.cs) and all(isinstance(c, SymInt) or c == kc for c, kc in zip(k.cs, key)):
+                out.append(key)
+        return out
+
+    def _find(self, k):
+        for key in self._cands(k):
+            if k == key:          # SymStr.__eq__: one decision
+                return key
+        return None
+
+    def __contains__(self, k):
+        if isinstance(k, SymStr):
+            return self._find(k) is not None
+        return k in self.d
+
+    def __getitem__(self, k):
+        if isinstance(k, SymStr):
+            key = self._find(k)
+            if key is None:
+                raise KeyError(k.real())
+            return self.d[key]
+        return self.d[k]
+
+    def get(self, k, default=None):
+        if isinstance(k, SymStr):
+            key = self._find(k)
+            return default if key is None else self.d[key]
+        return self.d.get(k, default)
+
+    def __iter__(self):
+        return iter(self.d)
+
+    def __len__(self):
+        return len(self.d)
+
+    def items(self):
+        return self.d.items()
+
+    def keys(self):
+        return self.d.keys()
+
+    def values(self):
+        return self.d.values()
+
+
 class UFDecompress:
     """zlib.decompress as an uninterpreted function: 2 fresh symbolic bytes per distinct (wbits, data)"""
 
@@ -317,6 +372,9 @@ def install(ifconv=True, pred=True, merged_nmea=True, crc_ifconv=True):
     rm.__dict__['bin'] = bin_shim
     rm.__dict__['chr'] = chr_shim
     info['shims'] += ["bin (rtcmmessage)", "chr (rtcmmessage)"]
+    if isinstance(rh.__dict__.get('RTCM_DATA_FIELDS'), dict):
+        rh.__dict__['RTCM_DATA_FIELDS'] = StrKeyMap(rh.__dict__['RTCM_DATA_FIELDS'])
+        info['shims'].append("RTCM_DATA_FIELDS (rtcmhelpers): symbolic string keys")
     sw.__dict__['bytes'] = bytes_shim
     sw.__dict__['BytesIO'] = SymBytesIO
     info['shims'] += ["bytes (socketwrapper)", "BytesIO (socketwrapper)"]
